@@ -21,39 +21,40 @@ PROPS['C30'] = dict(
                 'The tie feeds the same chart JSON to the real ChartOfAccounts and to the extracted model and compares: accept/reject of UnmarshalJSON, the resulting tree, '
                 'the classification (accept + default metadata / reject + patternMismatch) of 30 addresses, 6 ValidatePosting verdicts and the emitted JSON incl. member order. '
                 'The C30 monitor runs on the implementation alone: classification and error text before vs after MarshalJSON->UnmarshalJSON, and after InsertSchema->GetSchema '
-                'through the real controller/store on pgsem (templates compared as well). Query templates are carried as opaque JSON in the theorem (C30_schema) and are not generated by the tie.',
+                'through the real controller/store on pgsem (templates compared as well). Query templates are carried as opaque JSON in the theorem (C30_schema); the monitor stores 0-3 query templates (5 shapes: vars with defaults, params, $match/$in/$and bodies) with every chart and compares them after json.Marshal/Unmarshal of SchemaData and after InsertSchema/GetSchema (canonical JSON, re-validated).',
     trusted=CHART_TRUST + HIST_TRUST[:1],
     technique='Coq proof (structural induction over the chart tree with a nested induction principle; sorted-object algebra for json.Marshal of maps) + differential run of the extracted model against internal/chart.go + round-trip monitor incl. the schemas table on pgsem',
     level_text='Unbounded theorem: for every valid chart (canonical representation of what UnmarshalJSON can return) unmarshal(marshal c) = c, hence every address is classified identically '
                '(accepted/rejected, pattern-mismatch flag, default metadata) and every posting validated identically; holds for any regexp engine. Tied to internal/chart.go by differential runs on valid and malformed chart JSON.',
     level_note='Trusted: Coq kernel, extraction, OCaml glue, Go harness, encoding/json and regexp (exercised, not modelled), pgsem for the InsertSchema/GetSchema monitor. '
-               'Templates/query templates are opaque JSON in the theorem; the monitor compares templates on the real stack; query templates are not generated.',
+               'Templates/query templates are opaque JSON in the theorem; the monitor compares templates and query templates on the real stack.',
 )
 
 SCHEMA_RULE = ('histories of 2..11 operations on a fresh ledger (all features on) in strict (55%) or audit (45%) mode: schema inserts (versions v1..v3, re-inserts of an existing '
                'version, charts built around world / bank / users:$id (pattern from the small set, default metadata role/kind/k1/k2, .self, wallet child) / users:main / alice; '
                '35% with 1-2 transaction templates), creates (1-2 postings over 8 addresses inside and outside the chart, account metadata, 6% dry run) with schema version '
-               '"" / existing / never inserted (v9) and template "" / pay / p2 / out / nope, reverts, account and transaction metadata saves and deletes; after EVERY operation the '
+               '"" / existing / never inserted (v9) and template "" / pay / p2 / out / nope, reverts, account and transaction metadata saves and deletes; 22% of the writes carry an idempotency key (3 keys) and 14% are replays of an earlier keyed write with the same input or '
+               'another schema version / template / metadata; after EVERY operation the '
                'result class and the full ledger snapshot (all read paths + raw moves/history tables + schemas table + logs.schema_version) are compared with the model; '
                'non-trivial = history with >= 3 successful operations')
 PROPS['C29'] = dict(
     target='Props/C29',
     theorems=['C29_rejected_no_effect', 'C29_strict_version_required', 'C29_unknown_version_rejected', 'C29_strict_chart_enforced', 'C29_strict_template_required',
-              'C29_audit_partial_unspecified', 'C29_audit_partial_chart_ignored', 'C29_defaults', 'C29_audit_refuted_unknown_version', 'C29_audit_refuted_no_template'],
+              'C29_audit_partial_unspecified', 'C29_audit_partial_chart_ignored', 'C29_audit_template_optional', 'C29_audit_template_resolution', 'C29_defaults', 'C29_audit_refuted_unknown_version'],
     ties=[dict(name='TIE-D schemahist', vh='schemahist', model='schemahist', n=dict(quick=220, thorough=5000), kinds=['C29']),
           dict(name='TIE-C chart', vh='chart', model='chart', n=dict(quick=600, thorough=20000), args=dict(all=['-stack', '0']), kinds=['C29'], replayable=False)],
     rule=SCHEMA_RULE + ' || TIE-C: ' + CHART_RULE,
     explanation='Proved for every state/operation (model Ledger/SchemaCtrl.v over Ledger/Core.v and Ledger/Chart.v, any regexp engine): a rejected write changes no table; strict mode rejects '
                 'a missing version on a ledger with schemas, an unknown version, a committed-to-be transaction with a posting the chart rejects, and a template-less create under a schema '
-                'with templates; audit mode with no version behaves exactly as the ledger without schemas and ignores the chart verdict; chart defaults are merged under the given metadata '
-                'when the account row is first created and play no role afterwards. REFUTED for audit mode (witness theorems, known findings KF-C29-audit-unknown-version and '
-                'KF-C29-audit-no-template): an unknown version and a missing template are rejected in audit mode too. Tie: real stack on pgsem vs model after every operation; the C29 '
+                'with templates; audit mode with no version behaves exactly as the ledger without schemas, ignores the chart verdict and (code repaired by fixes/01-audit-no-template.diff) runs a template-less create under a schema with templates; chart defaults are merged under the given metadata '
+                'when the account row is first created and play no role afterwards. REFUTED for audit mode (witness theorem, known finding KF-C29-audit-unknown-version): an unknown version is rejected in audit mode too '
+                '(KF-C29-audit-no-template is fixed: on a tree without that fix the check reports a violation). Tie: real stack on pgsem vs model after every operation; the C29 '
                 'monitor works on the implementation trace only (rejected => snapshot unchanged; strict violations rejected; audit accepted; defaults at first creation only).',
     trusted=CHART_TRUST + HIST_TRUST + ['transaction templates are modelled by the postings their (variable-free) script denotes; the Numscript front end executes them for real'],
     technique='Coq proof (decision rules + frame property of the step function, default-metadata algebra) + refutation witnesses (vm_compute) replayed on the real stack + differential run on pgsem in both modes',
-    level_text='Unbounded theorems about the executable model of runLog/createTransaction/UpsertAccounts schema logic: strict-mode rules (a)-(d) with no effect on rejection, audit-mode equivalence for '
-               '(a) and (c), default metadata at first creation only. The audit half of the property is refuted for unknown versions and missing templates (known findings). Tied to the real '
+    level_text='Unbounded theorems about the executable model of runLog/createTransaction/UpsertAccounts schema logic: strict-mode rules (a)-(d) with no effect on rejection, audit-mode acceptance for '
+               '(a), (c) and (d), default metadata at first creation only. The audit half of the property is refuted for unknown versions (known finding, design choice). Tied to the real '
                'controller + store running on pgsem by per-operation comparison of results and full snapshots.',
-    level_note='Trusted: Coq kernel, extraction, OCaml glue, Go harness, pgsem (stand-in for PostgreSQL). Idempotency keys are not generated in this tie (covered by C07/C13 ties); '
+    level_note='Trusted: Coq kernel, extraction, OCaml glue, Go harness, pgsem (stand-in for PostgreSQL). Idempotency replays are decided before any schema lookup (modelled, generated); '
                'templates are variable-free scripts; only the default numscript runtime is wired in the harness stack.',
 )
